@@ -42,11 +42,23 @@ def make_docs(rng, n):
 
 
 def pristine(jobs, hashseed):
+    """every job in a sub-process under the given hash seed.  The jobs are run there in another order than here (seed 0:
+    reversed, seed 1: same order, otherwise: shuffled), so that anything kept at class or module level between calls shows
+    up as a difference"""
+    import random
+    order = list(range(len(jobs)))
+    if hashseed == 0:
+        order.reverse()
+    elif hashseed != 1:
+        random.Random(hashseed).shuffle(order)
     env = dict(os.environ, PYTHONHASHSEED=str(hashseed), PYTHONPATH=os.path.join(core.VERIF, "harness"))
-    p = subprocess.run([sys.executable, "-m", "pcv.setbuild"], input=json.dumps(jobs), capture_output=True, text=True, env=env, timeout=1200)
+    p = subprocess.run([sys.executable, "-m", "pcv.setbuild"], input=json.dumps([jobs[i] for i in order]), capture_output=True, text=True, env=env, timeout=1200)
     if p.returncode != 0:
         raise RuntimeError("pristine sub-process failed: " + p.stderr[-2000:])
-    return [tuple(x) for x in json.loads(p.stdout)]
+    res = [None] * len(jobs)
+    for i, x in zip(order, json.loads(p.stdout)):
+        res[i] = tuple(x)
+    return res
 
 
 def explore(chk):
@@ -63,7 +75,7 @@ def explore(chk):
             if r < 0.55:
                 ops.append(("read", rng.randrange(len(docs)), rng.random() < 0.6))      # reuse the per-format reader object?
             elif r < 0.8:
-                ops.append(("edit", rng.choice(["add_style", "caption_style", "node_text", "set_style_content"])))
+                ops.append(("edit", rng.choice(["add_style", "caption_style", "node_text", "set_style_content", "style_node_content"])))
             else:
                 ops.append(("write", rng.choice(setbuild.WRITERS)))
         if not any(o[0] == "read" for o in ops):
@@ -81,6 +93,24 @@ def explore(chk):
                 ops += [("read", len(docs) - 2, True), ("read", len(docs) - 1, True)]
             except Exception:
                 pass
+        if h % 5 == 1:
+            # two TTML documents that use the same style ids for different things, the styles referring to one another
+            al = rng.sample(["left", "center", "right", "start", "end"], 2)
+            og = rng.sample(["10% 10%", "20% 70%", "5% 40%"], 2)
+            def ttml(align, origin, word):
+                return ('<tt xml:lang="en" xmlns="http://www.w3.org/ns/ttml" xmlns:tts="http://www.w3.org/ns/ttml#styling"><head><styling>'
+                        '<style xml:id="base" tts:textAlign="%s" tts:origin="%s" tts:extent="60%% 20%%"/><style xml:id="s1" style="base" tts:color="white"/>'
+                        '<style xml:id="s2" style="s1"/></styling><layout><region xml:id="r1" style="s2"/></layout></head><body><div>'
+                        '<p begin="1s" end="2s" style="s1" region="r1">%s</p><p begin="3s" end="4s" style="s2">%s again</p></div></body></tt>') % (align, origin, word, word)
+            docs += [("dfxp", ttml(al[0], og[0], "first")), ("dfxp", ttml(al[1], og[1], "second"))]
+            ops += [("read", len(docs) - 2, rng.random() < 0.5), ("read", len(docs) - 1, rng.random() < 0.5)]
+        if h % 5 == 2:
+            # two SCC documents with italics; then the style node of one result is edited in place
+            def scc(word_a, word_b):
+                return ("Scenarist_SCC V1.0\n\n00:00:01:00\t94ae 9420 9470 91ae %s 942f\n\n00:00:03:00\t942c\n\n00:00:04:00\t94ae 9420 9452 %s 91ae %s 942f\n\n00:00:06:00\t942c\n"
+                        % (word_a, word_b, word_a))
+            docs += [("scc", scc("c1c2", "c4c5")), ("scc", scc("4f4b", "c1d0"))]
+            ops += [("read", len(docs) - 2, True), ("read", len(docs) - 1, rng.random() < 0.5), ("edit", "style_node_content"), ("read", len(docs) - 2, False)]
         histories.append((docs, ops))
         for o in ops:
             if o[0] == "read":
@@ -134,6 +164,11 @@ def explore(chk):
                         caps[0].style["pcv-key"] = len(trace)
                     elif kind == "node_text" and caps:
                         caps[0].nodes[0].content = "EDITED"
+                    elif kind == "style_node_content":
+                        for c_ in caps:
+                            sn = [n for n in c_.nodes if isinstance(n.content, dict)]
+                            if sn:
+                                sn[0].content["bold"] = True; sn[0].content.pop("italics", None); break
                     elif kind == "set_style_content":
                         for sel, st in cs.get_styles():
                             if isinstance(st, dict):
